@@ -1,14 +1,14 @@
 package props
 
 import (
-	"strings"
 	"crypto/sha256"
-	"os/exec"
-	"os"
 	"encoding/json"
 	"fmt"
 	"math/rand"
+	"os"
+	"os/exec"
 	"sort"
+	"strings"
 
 	"github.com/protobom/protobom/pkg/formats"
 	_ "github.com/protobom/protobom/pkg/native/serializers/beta" // registers the SPDX 3 serializer
